@@ -46,11 +46,37 @@ func modeName(m oprf.Mode) string {
 
 // ---------------------------------------------------------------- protocol wrappers
 
-func oBlind(su oprf.Suite, m oprf.Mode, pk *oprf.PublicKey, inputs [][]byte, blinds []oprf.Blind) (*oprf.FinalizeData, *oprf.EvaluationRequest, error) {
+// oBlind hands the inputs (and the blinds) over in buffers and objects of its
+// own and overwrites them as soon as the call returns - a client re-using its
+// input buffer for the next request: what Finalize later computes must be the
+// function of the inputs and blinds AS THEY WERE when Blind was called.
+func oBlind(su oprf.Suite, m oprf.Mode, pk *oprf.PublicKey, inputs [][]byte, blinds []oprf.Blind) (fd *oprf.FinalizeData, req *oprf.EvaluationRequest, err error) {
 	var bl []oprf.Blind
 	for _, b := range blinds {
 		bl = append(bl, b.Copy())
 	}
+	given := inputs
+	inputs = make([][]byte, len(given))
+	for i := range given {
+		inputs[i] = lib.Clone(given[i])
+		if given[i] != nil && inputs[i] == nil {
+			inputs[i] = []byte{}
+		}
+	}
+	defer func() {
+		for i := range inputs {
+			for j := range inputs[i] {
+				inputs[i][j] ^= 0xA5
+			}
+		}
+		for i := range bl {
+			if i+1 < len(bl) {
+				bl[i].Set(bl[i+1])
+			} else {
+				bl[i].SetUint64(7)
+			}
+		}
+	}()
 	switch m {
 	case oprf.BaseMode:
 		c := oprf.NewClient(su)
